@@ -368,6 +368,13 @@ func (c *Client) Step(op adapt.Op, got adapt.Outcome) []Diff {
 	return diff("unknown-op", "model does not know %s", op.Kind)
 }
 
+func typS(t string) string {
+	if t == "" {
+		return "S"
+	}
+	return t
+}
+
 func wantClass(op adapt.Op, got adapt.Outcome, want ...string) []Diff {
 	for _, w := range want {
 		if got.Class == w {
@@ -979,6 +986,29 @@ func (c *Client) stepUpdateTable(op adapt.Op, got adapt.Outcome) []Diff {
 			// the AddIndex helper never supplies a provisioned throughput, which a global secondary
 			// index of a provisioned table needs
 			return wantClass(op, got, adapt.ClsValidation)
+		}
+	}
+	// an index key attribute that is already a key attribute of the table or of another index keeps its declared
+	// type: a request that declares it with ANOTHER type (the AddIndex helper always declares S) must be refused -
+	// it cannot silently re-type the keys of the stored items
+	declared := map[string]string{t.Spec.Hash: typS(t.Spec.HashT)}
+	if t.Spec.Range != "" {
+		declared[t.Spec.Range] = typS(t.Spec.RangeT)
+	}
+	for _, ix := range t.Spec.Indexes {
+		declared[ix.Hash] = typS(ix.HashT)
+		if ix.Range != "" {
+			declared[ix.Range] = typS(ix.RangeT)
+		}
+	}
+	for _, ch := range changes {
+		if ch.Create == nil || op.NoDefs {
+			continue
+		}
+		for _, pr := range [][2]string{{ch.Create.Hash, ch.Create.HashT}, {ch.Create.Range, ch.Create.RangeT}} {
+			if d, ok := declared[pr[0]]; ok && pr[0] != "" && d != typS(pr[1]) {
+				return wantClass(op, got, adapt.ClsValidation)
+			}
 		}
 	}
 	// validate the whole request first: a failing request must leave no trace (C08)
